@@ -2,7 +2,7 @@
 
     Part A  rdec = decode ; rval          (the code consumes exactly one value, whatever the reader schema)
     Part B  error rules of the specification [resolve]
-    Part C  identity: resolve e e s s = py_of
+    Part C  identity: resolve ropts0 e e s s = py_of
     Part D  rval = resolve inside the agreement zone (inline schemas) *)
 From Coq Require Import Lia ZifyBool.
 From FA Require Import model.Base model.Varint model.Value model.Schema model.Float model.Utf8 model.Codec
@@ -332,26 +332,30 @@ Proof.
   pose proof (rdec_rval n we w (layout_of a) H1 f Hf re o R x) as H. rewrite H3, H2 in H. exact H.
 Qed.
 
+Section Opts.
+  Variable o : ropts.       (* the reader options: everything below holds for any of them *)
+
 (* ------------------------------------------------------------------------------------------ *)
 (** * Part B: when no rule applies the specification gives a resolution error *)
 
 (** [resolve] looks at the writer schema only through [deref], at the reader schema only through [reader_side] *)
-Lemma resolve_deref_w we re w w' r a : deref we w = deref we w' -> resolve we re w r a = resolve we re w' r a.
+Lemma resolve_deref_w we re w w' r a : deref we w = deref we w' -> resolve o we re w r a = resolve o we re w' r a.
 Proof. intros H. destruct a; cbn [resolve]; cbv zeta; rewrite H; reflexivity. Qed.
 
 Lemma reader_side_deref we re dw r r' : deref re r = deref re r' -> reader_side we re dw r = reader_side we re dw r'.
 Proof. intros H. unfold reader_side. rewrite H. reflexivity. Qed.
 
 Lemma resolve_deref_r we re r r' : deref re r = deref re r' ->
-  forall a w, resolve we re w r a = resolve we re w r' a.
+  forall a w, resolve o we re w r a = resolve o we re w r' a.
 Proof.
   intros H. induction a; intros w; cbn [resolve]; cbv zeta; rewrite ?(reader_side_deref we re (deref we w) r r' H); try reflexivity.
-  destruct (deref we w); try reflexivity. destruct (nthZ bs i); [apply IHa|reflexivity].
+  destruct (deref we w); try reflexivity. destruct (nthZ bs i); [|reflexivity].
+  rewrite IHa. unfold union_pick. rewrite H. reflexivity.
 Qed.
 
 Lemma resolve_reader_side we re w r r' a : is_union (deref we w) = false ->
   reader_side we re (deref we w) r = reader_side we re (deref we w) r' ->
-  resolve we re w r a = resolve we re w r' a.
+  resolve o we re w r a = resolve o we re w r' a.
 Proof.
   intros Hu H. destruct a; cbn [resolve]; cbv zeta; rewrite ?H; try reflexivity.
   destruct (deref we w); try reflexivity. discriminate Hu.
@@ -370,7 +374,7 @@ Definition fits (dw : schema) (a : aval) : bool :=
 Theorem error_no_branch we re w r a rbs :
   is_union (deref we w) = false -> fits (deref we w) a = true ->
   deref re r = SUnion rbs -> pick_branch we re (deref we w) rbs = None ->
-  resolve we re w r a = RErrResolution.
+  resolve o we re w r a = RErrResolution.
 Proof.
   intros Hu Hf Hr Hp.
   assert (Hs : reader_side we re (deref we w) r = None) by (unfold reader_side; rewrite Hr, Hp; reflexivity).
@@ -381,7 +385,7 @@ Qed.
 Theorem error_not_promotable we re w r a dr :
   is_prim (deref we w) = true -> fits (deref we w) a = true ->
   reader_side we re (deref we w) r = Some dr -> prim_match true (deref we w) dr = false ->
-  resolve we re w r a = RErrResolution.
+  resolve o we re w r a = RErrResolution.
 Proof.
   intros Hp Hf Hs Hm.
   destruct a; cbn [resolve]; cbv zeta; rewrite ?Hs; destruct (deref we w); try discriminate Hf; try discriminate Hp;
@@ -399,7 +403,7 @@ Definition same_kind (dw dr : schema) : bool :=
 Theorem error_kind we re w r a dr :
   is_union (deref we w) = false -> fits (deref we w) a = true ->
   reader_side we re (deref we w) r = Some dr -> same_kind (deref we w) dr = false ->
-  resolve we re w r a = RErrResolution.
+  resolve o we re w r a = RErrResolution.
 Proof.
   intros Hu Hf Hs Hk.
   destruct a; cbn [resolve]; cbv zeta; rewrite ?Hs; destruct (deref we w); try discriminate Hf; try discriminate Hu;
@@ -409,7 +413,7 @@ Qed.
 (** fixed: size differs *)
 Theorem error_fixed_size we re w r b wn wal wsz rn ral rsz :
   deref we w = SFixed wn wal wsz -> reader_side we re (SFixed wn wal wsz) r = Some (SFixed rn ral rsz) ->
-  wsz <> rsz -> resolve we re w r (AFixed b) = RErrResolution.
+  wsz <> rsz -> resolve o we re w r (AFixed b) = RErrResolution.
 Proof.
   intros Hw Hs Hne. cbn [resolve]; cbv zeta. rewrite Hw, Hs.
   destruct (wsz =? rsz) eqn:E; [lia|]. rewrite andb_false_r. reflexivity.
@@ -418,24 +422,24 @@ Qed.
 (** named types: neither the unqualified names agree nor is the writer's name an alias of the reader's *)
 Theorem error_name_mismatch_fixed we re w r b wn wal wsz rn ral rsz :
   deref we w = SFixed wn wal wsz -> reader_side we re (SFixed wn wal wsz) r = Some (SFixed rn ral rsz) ->
-  names_match wn rn ral = false -> resolve we re w r (AFixed b) = RErrResolution.
+  names_match wn rn ral = false -> resolve o we re w r (AFixed b) = RErrResolution.
 Proof. intros Hw Hs Hn. cbn [resolve]; cbv zeta. rewrite Hw, Hs, Hn. reflexivity. Qed.
 
 Theorem error_name_mismatch_enum we re w r i wn wal wsyms wd rn ral rsyms rd :
   deref we w = SEnum wn wal wsyms wd -> reader_side we re (SEnum wn wal wsyms wd) r = Some (SEnum rn ral rsyms rd) ->
-  names_match wn rn ral = false -> resolve we re w r (AEnum i) = RErrResolution.
+  names_match wn rn ral = false -> resolve o we re w r (AEnum i) = RErrResolution.
 Proof. intros Hw Hs Hn. cbn [resolve]; cbv zeta. rewrite Hw, Hs, Hn. reflexivity. Qed.
 
 Theorem error_name_mismatch_record we re w r l wn wal wfs rn ral rfs :
   deref we w = SRecord wn wal wfs -> reader_side we re (SRecord wn wal wfs) r = Some (SRecord rn ral rfs) ->
-  names_match wn rn ral = false -> resolve we re w r (ARecord l) = RErrResolution.
+  names_match wn rn ral = false -> resolve o we re w r (ARecord l) = RErrResolution.
 Proof. intros Hw Hs Hn. cbn [resolve]; cbv zeta. rewrite Hw, Hs, Hn. reflexivity. Qed.
 
 (** enum: the writer's symbol is unknown to the reader and the reader's enum has no default *)
 Theorem error_unknown_symbol we re w r i sym wn wal wsyms wd rn ral rsyms :
   deref we w = SEnum wn wal wsyms wd -> reader_side we re (SEnum wn wal wsyms wd) r = Some (SEnum rn ral rsyms None) ->
   nthZ wsyms i = Some sym -> mem sym rsyms = false ->
-  resolve we re w r (AEnum i) = RErrResolution.
+  resolve o we re w r (AEnum i) = RErrResolution.
 Proof.
   intros Hw Hs Hi Hm. cbn [resolve]; cbv zeta. rewrite Hw, Hs, Hi, Hm.
   destruct (names_match wn rn ral); reflexivity.
@@ -445,18 +449,18 @@ Qed.
 Theorem enum_default we re w r i sym d wn wal wsyms wd rn ral rsyms :
   deref we w = SEnum wn wal wsyms wd -> reader_side we re (SEnum wn wal wsyms wd) r = Some (SEnum rn ral rsyms (Some d)) ->
   names_match wn rn ral = true -> nthZ wsyms i = Some sym -> mem sym rsyms = false ->
-  resolve we re w r (AEnum i) = ROk (PStr d).
+  resolve o we re w r (AEnum i) = ROk (PStr d).
 Proof. intros Hw Hs Hn Hi Hm. cbn [resolve]; cbv zeta. rewrite Hw, Hs, Hn, Hi, Hm. reflexivity. Qed.
 
 (** arrays / maps whose item schemas do not match (even when the datum is empty) *)
 Theorem error_items we re w r l wi ri :
   deref we w = SArray wi -> reader_side we re (SArray wi) r = Some (SArray ri) ->
-  smatch we re true wi ri = false -> resolve we re w r (AArray l) = RErrResolution.
+  smatch we re true wi ri = false -> resolve o we re w r (AArray l) = RErrResolution.
 Proof. intros Hw Hs Hm. cbn [resolve]; cbv zeta. rewrite Hw, Hs, Hm. reflexivity. Qed.
 
 Theorem error_values we re w r l wv rv :
   deref we w = SMap wv -> reader_side we re (SMap wv) r = Some (SMap rv) ->
-  smatch we re true wv rv = false -> resolve we re w r (AMap l) = RErrResolution.
+  smatch we re true wv rv = false -> resolve o we re w r (AMap l) = RErrResolution.
 Proof. intros Hw Hs Hm. cbn [resolve]; cbv zeta. rewrite Hw, Hs, Hm. reflexivity. Qed.
 
 (** records: the first reader field that the writer's data does not provide has no default *)
@@ -472,11 +476,11 @@ Qed.
 Theorem error_no_default we re w r l wn wal wfs rn ral rfs record tbl1 n fd tbl2 :
   deref we w = SRecord wn wal wfs -> reader_side we re (SRecord wn wal wfs) r = Some (SRecord rn ral rfs) ->
   names_match wn rn ral = true ->
-  res_fields (resolve we re) rfs wfs l [] = ROk record ->          (* the writer's fields resolve *)
+  res_fields (resolve o we re) rfs wfs l [] = ROk record ->          (* the writer's fields resolve *)
   field_table rfs = tbl1 ++ (n, fd) :: tbl2 ->
   Forall (fun e => dict_get record (fst e) <> None) tbl1 ->         (* reader fields before it are provided *)
   dict_get record n = None -> fdefault fd = None ->                 (* this one is not, and has no default *)
-  resolve we re w r (ARecord l) = RErrResolution.
+  resolve o we re w r (ARecord l) = RErrResolution.
 Proof.
   intros Hw Hs Hn Hf Ht H1 Hg Hd. cbn [resolve]; cbv zeta. rewrite Hw, Hs, Hn, Hf. cbn [rbind].
   rewrite Ht, spec_defaults_skip by exact H1. cbn [spec_defaults]. rewrite Hg, Hd. reflexivity.
@@ -512,44 +516,44 @@ Proof.
 Qed.
 
 (** named loops of py_of *)
-Definition py_items (o : ropts) (e : env) (it : schema) :=
+Definition py_items (oo : ropts) (e : env) (it : schema) :=
   fix go (l : list aval) : option (list pyval) :=
     match l with
     | [] => Some []
-    | x :: l => match py_of o e it x, go l with Some v, Some r => Some (v :: r) | _, _ => None end
+    | x :: l => match py_of oo e it x, go l with Some v, Some r => Some (v :: r) | _, _ => None end
     end.
-Definition py_entries (o : ropts) (e : env) (vs : schema) :=
+Definition py_entries (oo : ropts) (e : env) (vs : schema) :=
   fix go (l : list (bytes * aval)) (acc : list (pyval * pyval)) : option (list (pyval * pyval)) :=
     match l with
     | [] => Some acc
-    | (k, x) :: l => match py_of o e vs x with Some v => go l (dict_set acc k v) | None => None end
+    | (k, x) :: l => match py_of oo e vs x with Some v => go l (dict_set acc k v) | None => None end
     end.
-Definition py_fields (o : ropts) (e : env) :=
+Definition py_fields (oo : ropts) (e : env) :=
   fix go (fs : list field) (l : list aval) (acc : list (pyval * pyval)) {struct l} : option (list (pyval * pyval)) :=
     match fs, l with
     | [], [] => Some acc
-    | f :: fs, x :: l => match py_of o e (ftype f) x with
+    | f :: fs, x :: l => match py_of oo e (ftype f) x with
                          | Some v => go fs l (dict_set acc (fname f) v)
                          | None => None end
     | _, _ => None
     end.
 
-Lemma py_of_array o e s it l : Read.resolve e s = SArray it ->
-  py_of o e s (AArray l) = option_map PList (py_items o e it l).
+Lemma py_of_array oo e s it l : Read.resolve e s = SArray it ->
+  py_of oo e s (AArray l) = option_map PList (py_items oo e it l).
 Proof. intros H. cbn [py_of]. rewrite H. reflexivity. Qed.
-Lemma py_of_map o e s vs l : Read.resolve e s = SMap vs ->
-  py_of o e s (AMap l) = option_map PDict (py_entries o e vs l []).
+Lemma py_of_map oo e s vs l : Read.resolve e s = SMap vs ->
+  py_of oo e s (AMap l) = option_map PDict (py_entries oo e vs l []).
 Proof. intros H. cbn [py_of]. rewrite H. reflexivity. Qed.
-Lemma py_of_record o e s n al fs l : Read.resolve e s = SRecord n al fs ->
-  py_of o e s (ARecord l) = option_map PDict (py_fields o e fs l []).
+Lemma py_of_record oo e s n al fs l : Read.resolve e s = SRecord n al fs ->
+  py_of oo e s (ARecord l) = option_map PDict (py_fields oo e fs l []).
 Proof. intros H. cbn [py_of]. rewrite H. reflexivity. Qed.
-Lemma py_of_union o e s bs i x : Read.resolve e s = SUnion bs ->
-  py_of o e s (AUnion i x) = match nthZ bs i with
-                             | Some b => match py_of o e b x with Some v => Some (wrap_union o e bs b v) | None => None end
+Lemma py_of_union oo e s bs i x : Read.resolve e s = SUnion bs ->
+  py_of oo e s (AUnion i x) = match nthZ bs i with
+                             | Some b => match py_of oo e b x with Some v => Some (wrap_union oo e bs b v) | None => None end
                              | None => None end.
 Proof. intros H. cbn [py_of]. rewrite H. reflexivity. Qed.
 
-Lemma py_of_deref o e s s' a : Read.resolve e s = Read.resolve e s' -> py_of o e s a = py_of o e s' a.
+Lemma py_of_deref oo e s s' a : Read.resolve e s = Read.resolve e s' -> py_of oo e s a = py_of oo e s' a.
 Proof. intros H. destruct a; cbn [py_of]; rewrite H; reflexivity. Qed.
 
 (** dictionaries *)
@@ -636,33 +640,33 @@ Lemma wf_ident_le n m e s : (n <= m)%nat -> wf_ident n e s -> wf_ident m e s.
 Proof. induction 1 as [|m _ IH]; intros H; [exact H|]. apply wf_ident_mono. auto. Qed.
 
 Definition ident_ok (e : env) (s : schema) (a : aval) : Prop :=
-  exists v, py_of ropts0 e s a = Some v /\ resolve e e s s a = ROk v.
+  exists v, py_of o e s a = Some v /\ resolve o e e s s a = ROk v.
 
 Lemma ident_items e it l : Forall (ident_ok e it) l ->
-  exists vs, py_items ropts0 e it l = Some vs /\ res_items (resolve e e) it it l = ROk vs.
+  exists vs, py_items o e it l = Some vs /\ res_items (resolve o e e) it it l = ROk vs.
 Proof.
   induction 1 as [|x l (v & H1 & H2) _ (vs & H3 & H4)]; cbn [py_items res_items]; [eexists; split; reflexivity|].
-  fold (py_items ropts0 e it). rewrite H1, H2, H3, H4. eexists; split; reflexivity.
+  fold (py_items o e it). rewrite H1, H2, H3, H4. eexists; split; reflexivity.
 Qed.
 
 Lemma ident_entries e vs l : Forall (fun kv => ident_ok e vs (snd kv)) l ->
-  forall acc, exists kvs, res_entries (resolve e e) vs vs l = ROk kvs /\
-    py_entries ropts0 e vs l acc = Some (fold_left (fun d kv => dict_set d (fst kv) (snd kv)) kvs acc).
+  forall acc, exists kvs, res_entries (resolve o e e) vs vs l = ROk kvs /\
+    py_entries o e vs l acc = Some (fold_left (fun d kv => dict_set d (fst kv) (snd kv)) kvs acc).
 Proof.
   induction 1 as [|[k x] l (v & H1 & H2) _ IH]; intros acc; cbn [py_entries res_entries]; [eexists; split; reflexivity|].
-  fold (py_entries ropts0 e vs). cbn [snd] in H1, H2. rewrite H1, H2.
+  fold (py_entries o e vs). cbn [snd] in H1, H2. rewrite H1, H2.
   destruct (IH (dict_set acc k v)) as (kvs & H3 & H4). rewrite H3, H4. eexists; split; reflexivity.
 Qed.
 
 Lemma ident_fields e rfs wfs l : Forall2 (fun f x => ident_ok e (ftype f) x) wfs l ->
   Forall (fun f => reader_field rfs (fname f) = Some f) wfs ->
-  forall acc, exists rec, py_fields ropts0 e wfs l acc = Some rec /\ res_fields (resolve e e) rfs wfs l acc = ROk rec /\
+  forall acc, exists rec, py_fields o e wfs l acc = Some rec /\ res_fields (resolve o e e) rfs wfs l acc = ROk rec /\
     (forall k, dict_get acc k <> None -> dict_get rec k <> None) /\
     (forall f, In f wfs -> dict_get rec (fname f) <> None).
 Proof.
   induction 1 as [|f x wfs l (v & H1 & H2) _ IH]; intros Hrf acc; cbn [py_fields res_fields].
   - exists acc. repeat split; auto; intros f0 [].
-  - fold (py_fields ropts0 e). inversion Hrf as [|? ? Hf Hrf']; subst. rewrite Hf, H1, H2. cbn [rbind].
+  - fold (py_fields o e). inversion Hrf as [|? ? Hf Hrf']; subst. rewrite Hf, H1, H2. cbn [rbind].
     destruct (IH Hrf' (dict_set acc (fname f) v)) as (rec & H3 & H4 & H5 & H6). exists rec.
     split; [exact H3|split; [exact H4|split]].
     + intros k Hk. apply H5. apply dict_get_set_keep. exact Hk.
@@ -677,6 +681,15 @@ Proof.
   intros l0 s'. unfold deref, Read.resolve. pose proof (strip_not_annot s) as H.
   destruct (strip s) eqn:E; try discriminate; try (exfalso; eapply H; reflexivity).
   destruct (lookup e n); [apply strip_not_annot|discriminate].
+Qed.
+
+Lemma wrap_spec_same we re wbs wb b v : branch_kind re b = branch_kind we wb ->
+  wrap_spec o we re wbs wb (Some b) v = ROk (wrap_union o we wbs wb v).
+Proof.
+  intros H. unfold wrap_spec, wrap_union. rewrite H.
+  destruct (ret_named_override o && (count_named we wbs =? 1)); [reflexivity|].
+  destruct (ret_named o); destruct (branch_kind we wb) as [[n0 [|]]|]; cbn [option_map fst];
+    destruct (ret_rec_override o && (count_records we wbs =? 1)); destruct (ret_rec o); reflexivity.
 Qed.
 
 Theorem resolve_identity : forall n e s a, typedn n e s a -> wf_ident n e s -> ident_ok e s a.
@@ -721,14 +734,17 @@ Proof.
     assert (Hwb : wf_ident n e wb).
     { clear - Hw Hn. revert i Hn. induction Hw as [|b bs Hb _ IHb]; intros i Hn; cbn [nthZ] in Hn; [discriminate|].
       destruct (i =? 0); [injection Hn as <-; exact Hb|]. destruct (i <? 0); [discriminate|]. eapply IHb. exact Hn. }
-    destruct (IH e wb a Hx Hwb) as (v & H1 & H2). exists v. split.
+    destruct (IH e wb a Hx Hwb) as (v & H1 & H2). exists (wrap_union o e bs wb v). split.
     + rewrite (py_of_union _ _ _ bs) by reflexivity. rewrite Hn, H1. reflexivity.
     + cbn [resolve]; cbv zeta. cbn [deref Read.resolve strip]. rewrite Hn.
       destruct (Hu i wb Hn) as (Hnu & b' & Hp & Hd).
-      rewrite <- H2. apply resolve_reader_side; [exact Hnu|].
-      unfold reader_side at 1. cbn [deref Read.resolve strip]. rewrite Hp.
-      fold (deref e b'). rewrite Hd.
-      unfold reader_side. destruct (deref e wb) eqn:E; try reflexivity. discriminate Hnu.
+      assert (E : resolve o e e wb (SUnion bs) a = ROk v).
+      { rewrite <- H2. apply resolve_reader_side; [exact Hnu|].
+        unfold reader_side at 1. cbn [deref Read.resolve strip]. rewrite Hp.
+        fold (deref e b'). rewrite Hd.
+        unfold reader_side. destruct (deref e wb) eqn:E; try reflexivity. discriminate Hnu. }
+      rewrite E. cbn [rbind]. unfold union_pick. cbn [deref Read.resolve strip]. rewrite Hp.
+      apply wrap_spec_same. unfold branch_kind. fold (deref e b'). fold (deref e wb). rewrite Hd. reflexivity.
   - (* record *)
     cbn [wf_ident] in Hw. destruct Hw as [Hw Hf].
     assert (Hi : Forall2 (fun f x => ident_ok e (ftype f) x) fs l).
@@ -860,7 +876,7 @@ Proof. reflexivity. Qed.
 (** *** a rejected pair is a resolution error of the specification *)
 Lemma resolve_reject we re n w r a :
   inline w = true -> inline r = true -> is_union w = false -> is_union r = false ->
-  typedn (S n) we w a -> smatch we re true w r = false -> resolve we re w r a = RErrResolution.
+  typedn (S n) we w a -> smatch we re true w r = false -> resolve o we re w r a = RErrResolution.
 Proof.
   intros Hw Hr Huw Hur Ht Hm.
   dsch w Hw ltw pw; try discriminate Huw;
@@ -1390,24 +1406,24 @@ Proof.
 Qed.
 
 (** *** one step of [rval] *)
-Definition rbody (f : nat) (we re : env) (o : ropts) (w : schema) (R' : option schema) (a : aval) : rres pyval :=
+Definition rbody (f : nat) (we re : env) (oo : ropts) (w : schema) (R' : option schema) (a : aval) : rres pyval :=
     let+ v :=
       match strip w, a with
       | SRef n, _ =>
           match lookup we n with
           | None => RErrOther
-          | Some w' => rval f we re o w' R' a
+          | Some w' => rval f we re oo w' R' a
           end
       | SArray wi, AArray l =>
           let item a := match truthy R' with
-                        | Some r => let+ ri := r_items r in rval f we re o wi (Some ri) a
-                        | None => rval f we re o wi None a
+                        | Some r => let+ ri := r_items r in rval f we re oo wi (Some ri) a
+                        | None => rval f we re oo wi None a
                         end in
           let+ l := vitems item l in ROk (PList l)
       | SMap wv, AMap l =>
           let item a := match truthy R' with
-                        | Some r => let+ rv := r_values r in rval f we re o wv (Some rv) a
-                        | None => rval f we re o wv None a
+                        | Some r => let+ rv := r_values r in rval f we re oo wv (Some rv) a
+                        | None => rval f we re oo wv None a
                         end in
           let+ l := vmap_items item l in ROk (PDict (dict_of_items l))
       | SUnion wbs, AUnion i x =>
@@ -1415,15 +1431,15 @@ Definition rbody (f : nat) (we re : env) (o : ropts) (w : schema) (R' : option s
           | None => RErrOther
           | Some wb =>
               let+ (rb, idx_reader) := union_reader we re wb R' in
-              let+ v := rval f we re o wb rb x in
-              wrap_union_r o we re wbs wb idx_reader v
+              let+ v := rval f we re oo wb rb x in
+              wrap_union_r oo we re wbs wb idx_reader v
           end
       | SRecord _ _ wfs, ARecord l =>
           match R' with
-          | None => let+ record := vfields_plain (rval f we re o) wfs l [] in ROk (PDict record)
+          | None => let+ record := vfields_plain (rval f we re oo) wfs l [] in ROk (PDict record)
           | Some r =>
               let+ rfs := r_fields r in
-              let+ record := vfields (rval f we re o) rfs wfs l [] in
+              let+ record := vfields (rval f we re oo) rfs wfs l [] in
               finish_record re rfs record
           end
       | SEnum _ _ syms _, AEnum i =>
@@ -1440,8 +1456,8 @@ Definition rbody (f : nat) (we re : env) (o : ropts) (w : schema) (R' : option s
     | _ => promote_with (tag_of w) R' v
     end.
 
-Lemma rval_S f we re o w R a :
-  rval (S f) we re o w R a = (let+ R' := matched we re w R in rbody f we re o w R' a).
+Lemma rval_S f we re oo w R a :
+  rval (S f) we re oo w R a = (let+ R' := matched we re w R in rbody f we re oo w R' a).
 Proof. reflexivity. Qed.
 
 (** the part of [agree] about what follows once a non-union writer schema meets the reader schema [b] *)
@@ -1483,18 +1499,85 @@ Lemma agree_union we re wbs r :
         end) wbs.
 Proof. reflexivity. Qed.
 
-Lemma wrap_union_r0 we re bs b rb v : wrap_union_r ropts0 we re bs b rb v = ROk v.
-Proof. reflexivity. Qed.
+(** *** the wrapping of a union value under the reader options: the code's is the specification's *)
+Definition topnode (s : schema) : bool :=
+  match s with SRef _ => false | SAnnot _ p => is_prim p | _ => true end.
+
+Tactic Notation "dtop" constr(w) hyp(H) ident(lw) ident(pw) :=
+  destruct w as [| | | | | | | | | | | | | | |lw pw]; try discriminate H; [..|destruct pw; try discriminate H].
+
+Lemma wrap_eq_core we re wbs wb rb v :
+  topnode (deref1 we wb) = true -> deref we wb = strip (deref1 we wb) ->
+  (forall b, rb = Some b -> topnode (deref1 re b) = true /\ deref re b = strip (deref1 re b) /\
+       (in_named_types (tag_of (deref1 we wb)) = true -> in_named_types (tag_of (deref1 re b)) = true)) ->
+  wrap_union_r o we re wbs wb rb v = wrap_spec o we re wbs wb rb v.
+Proof.
+  intros Hwn Hwd Hb. unfold wrap_union_r, wrap_spec, branch_kind.
+  change (Read.resolve we wb) with (deref we wb). rewrite Hwd.
+  destruct (ret_named_override o && (count_named we wbs =? 1)); [reflexivity|].
+  destruct rb as [b|].
+  - destruct (Hb b eq_refl) as (Hnb & Hdb & Hnm). change (Read.resolve re b) with (deref re b). rewrite Hdb.
+    assert (Hname : in_named_types (tag_of (deref1 we wb)) = true ->
+              (let+ d := (if is_dict b then ROk b
+                          else match b with
+                               | SRef m => ROk match lookup re m with Some d => d | None => deref1 we wb end
+                               | SUnion _ => RErrOther
+                               | _ => ROk (deref1 we wb)
+                               end) in let+ n := dict_name d in ROk (PTuple [PStr n; v]))
+              = match option_map fst (match strip (deref1 re b) with
+                                      | SRecord n _ _ => Some (n, true)
+                                      | SEnum n _ _ _ | SFixed n _ _ => Some (n, false)
+                                      | SRef n => Some (n, true)
+                                      | _ => None end) with
+                | Some n => ROk (PTuple [PStr n; v]) | None => RErrOther end).
+    { intros Hw. specialize (Hnm Hw).
+      destruct b; cbn [deref1 topnode] in Hnb, Hnm |- *; try discriminate Hnm; try reflexivity.
+      - destruct (lookup re n) as [d|]; [|discriminate Hnb]. destruct d; try discriminate Hnm; try reflexivity.
+        destruct d; try discriminate Hnb; discriminate Hnm.
+      - destruct b; try discriminate Hnb; try discriminate Hnm. }
+    set (wn := deref1 we wb) in *. clearbody wn.
+    dtop wn Hwn ltw pw; cbn [strip tag_of in_named_types andb option_map fst] in Hname |- *;
+      try (specialize (Hname eq_refl); rewrite Hname);
+      destruct (ret_named o); destruct (ret_rec_override o && (count_records we wbs =? 1)); destruct (ret_rec o); reflexivity.
+  - set (wn := deref1 we wb) in *. clearbody wn.
+    dtop wn Hwn ltw pw; cbn [strip tag_of in_named_types andb option_map fst rbind dict_name is_dict is_list is_str negb name_of];
+      destruct (ret_named o); destruct (ret_rec_override o && (count_records we wbs =? 1)); destruct (ret_rec o); reflexivity.
+Qed.
+
+Lemma wrap_eq_inline we re wbs wb rb v : inline wb = true ->
+  (forall b, rb = Some b -> inline b = true /\
+       (in_named_types (tag_of wb) = true -> in_named_types (tag_of b) = true)) ->
+  wrap_union_r o we re wbs wb rb v = wrap_spec o we re wbs wb rb v.
+Proof.
+  intros Hw Hb. apply wrap_eq_core.
+  - rewrite (inline_deref1 we wb Hw). destruct wb; try discriminate Hw; try reflexivity. exact Hw.
+  - rewrite (inline_deref1 we wb Hw). apply inline_deref. exact Hw.
+  - intros b E. destruct (Hb b E) as [Hbi Hnm]. rewrite (inline_deref1 re b Hbi), (inline_deref1 we wb Hw).
+    split; [destruct b; try discriminate Hbi; try reflexivity; exact Hbi|]. split; [apply inline_deref; exact Hbi|exact Hnm].
+Qed.
+
+(* a named writer type only matches a named reader type *)
+Lemma smatch_named_inline we re wb b : inline wb = true -> inline b = true -> is_union wb = false -> is_union b = false ->
+  smatch we re true wb b = true -> in_named_types (tag_of wb) = true -> in_named_types (tag_of b) = true.
+Proof.
+  intros Hw Hb Huw Hub Hm Hn.
+  dsch wb Hw ltw pw; try discriminate Huw; try discriminate Hn;
+    dsch b Hb ltb pb; try discriminate Hub; try reflexivity;
+    cbn [smatch deref Read.resolve strip named_match prim_match] in Hm; discriminate Hm.
+Qed.
+
+Lemma union_pick_plain we re wb r : is_union (deref re r) = false -> union_pick we re wb r = None.
+Proof. intros H. unfold union_pick. destruct (deref re r); try reflexivity. discriminate H. Qed.
 
 Section Body.
   Variable n : nat.
   Hypothesis IH : forall we w a, typedn n we w a -> forall re r f, (n <= f)%nat ->
     inline w = true -> inline r = true -> agree we re w r = true ->
-    rval f we re ropts0 w (Some r) a = resolve we re w r a.
+    rval f we re o w (Some r) a = resolve o we re w r a.
 
   Lemma items_agree we re wi ri f l : (n <= f)%nat -> inline wi = true -> inline ri = true -> agree we re wi ri = true ->
     Forall (typedn n we wi) l ->
-    vitems (fun a => rval f we re ropts0 wi (Some ri) a) l = res_items (resolve we re) wi ri l.
+    vitems (fun a => rval f we re o wi (Some ri) a) l = res_items (resolve o we re) wi ri l.
   Proof.
     intros Hf Hw Hr Ha. induction 1 as [|x l Hx _ IHl]; cbn [vitems res_items]; [reflexivity|].
     rewrite (IH we wi x Hx re ri f Hf Hw Hr Ha), IHl. reflexivity.
@@ -1503,7 +1586,7 @@ Section Body.
   Lemma entries_agree we re wv rv f (l : list (bytes * aval)) : (n <= f)%nat -> inline wv = true -> inline rv = true ->
     agree we re wv rv = true ->
     Forall (fun kv => key_ok (fst kv) /\ typedn n we wv (snd kv)) l ->
-    vmap_items (fun a => rval f we re ropts0 wv (Some rv) a) l = res_entries (resolve we re) wv rv l.
+    vmap_items (fun a => rval f we re o wv (Some rv) a) l = res_entries (resolve o we re) wv rv l.
   Proof.
     intros Hf Hw Hr Ha. induction 1 as [|[k x] l [_ Hx] _ IHl]; cbn [vmap_items res_entries]; [reflexivity|].
     cbn [snd] in Hx. rewrite (IH we wv x Hx re rv f Hf Hw Hr Ha), IHl. reflexivity.
@@ -1515,7 +1598,7 @@ Section Body.
     forallb (fun wf => match reader_field rfs (fname wf) with
                        | Some rf => agree we re (ftype wf) (ftype rf)
                        | None => true end) wfs = true ->
-    vfields (rval f we re ropts0) rfs wfs l acc = res_fields (resolve we re) rfs wfs l acc.
+    vfields (rval f we re o) rfs wfs l acc = res_fields (resolve o we re) rfs wfs l acc.
   Proof.
     intros Hf Hrfs wfs l acc H. revert acc. induction H as [|wf x wfs l Hx _ IHl]; intros acc Hi Ha; cbn [vfields res_fields]; [reflexivity|].
     cbn [forallb] in Hi, Ha. apply andb_prop in Hi. destruct Hi as [Hi1 Hi2]. apply andb_prop in Ha. destruct Ha as [Ha1 Ha2].
@@ -1523,14 +1606,14 @@ Section Body.
     - assert (Hrf : inline (ftype rf) = true).
       { rewrite forallb_forall in Hrfs. apply Hrfs. eapply reader_field_in. exact E. }
       rewrite (IH we (ftype wf) x Hx re (ftype rf) f Hf Hi1 Hrf Ha1).
-      destruct (resolve we re (ftype wf) (ftype rf) x); cbn [rbind]; try reflexivity. apply IHl; assumption.
+      destruct (resolve o we re (ftype wf) (ftype rf) x); cbn [rbind]; try reflexivity. apply IHl; assumption.
     - apply IHl; assumption.
   Qed.
 
   Lemma body_agree we re w b a f : typedn (S n) we w a -> (n <= f)%nat ->
     inline w = true -> inline b = true -> is_union w = false -> is_union b = false ->
     smatch we re true w b = true -> sub_ok we re w b = true ->
-    rbody f we re ropts0 w (Some b) a = resolve we re w b a.
+    rbody f we re o w (Some b) a = resolve o we re w b a.
   Proof.
     intros Ht Hf Hw Hb Huw Hub Hm Hs.
     dsch w Hw ltw pw; try discriminate Huw;
@@ -1551,19 +1634,19 @@ Section Body.
       cbn [resolve]; cbv zeta; cbn [deref Read.resolve strip reader_side]. rewrite Hm.
       unfold rbody. cbn [strip truthy r_items is_dict is_list is_str negb andb rbind].
       rewrite (items_agree we re w b f l Hf Hw Hb Hs Hl).
-      destruct (res_items (resolve we re) w b l); reflexivity.
+      destruct (res_items (resolve o we re) w b l); reflexivity.
     - (* map *)
       destruct Ht as [_ Hl]. cbn [inline] in Hw, Hb.
       cbn [resolve]; cbv zeta; cbn [deref Read.resolve strip reader_side]. rewrite Hm.
       unfold rbody. cbn [strip truthy r_values is_dict is_list is_str negb andb rbind].
       rewrite (entries_agree we re w b f l Hf Hw Hb Hs Hl).
-      destruct (res_entries (resolve we re) w b l); reflexivity.
+      destruct (res_entries (resolve o we re) w b l); reflexivity.
     - (* record *)
       cbn [inline] in Hw, Hb. apply andb_prop in Hs. destruct Hs as [Hs Hd]. pose proof (guard_always fs0 fs) as Hg.
       cbn [resolve]; cbv zeta; cbn [deref Read.resolve strip reader_side]. rewrite Hm.
       unfold rbody. cbn [strip r_fields is_dict is_list is_str negb andb rbind].
       rewrite (fields_agree we re fs0 f Hf Hb fs l [] Ht Hw Hs).
-      destruct (res_fields (resolve we re) fs0 fs l []) as [record| | |] eqn:E; cbn [rbind]; try reflexivity.
+      destruct (res_fields (resolve o we re) fs0 fs l []) as [record| | |] eqn:E; cbn [rbind]; try reflexivity.
       assert (Hk : keys_inv record (rec_keys fs0 fs [])).
       { rewrite <- (fields_agree we re fs0 f Hf Hb fs l [] Ht Hw Hs) in E. eapply vfields_keys; [|exact E]. reflexivity. }
       rewrite (finish_eq re fs0 fs record Hk Hd Hg).
@@ -1654,7 +1737,7 @@ Proof. intros H1 H2. exact (match_types_spec we re (mfuel wb) wb r (proj2 (mfuel
 
 Theorem rval_resolve : forall n we w a, typedn n we w a -> forall re r f, (n <= f)%nat ->
   inline w = true -> inline r = true -> agree we re w r = true ->
-  rval f we re ropts0 w (Some r) a = resolve we re w r a.
+  rval f we re o w (Some r) a = resolve o we re w r a.
 Proof.
   induction n as [|n IH]; intros we w a Ht re r f Hf Hw Hr Ha; [destruct Ht|].
   destruct f as [|f]; [lia|]. assert (Hf' : (n <= f)%nat) by lia.
@@ -1671,7 +1754,8 @@ Proof.
     assert (Hwu' : is_union wb = false) by (destruct (is_union wb); [discriminate|reflexivity]).
     rewrite forallb_forall in Ha. specialize (Ha wb Hin).
     destruct n as [|m]; [destruct Hx|].
-    assert (Hres : resolve we re (SUnion wbs) r (AUnion i a) = resolve we re wb r a).
+    assert (Hres : resolve o we re (SUnion wbs) r (AUnion i a) =
+                   (let+ v := resolve o we re wb r a in wrap_spec o we re wbs wb (union_pick we re wb r) v)).
     { cbn [resolve]; cbv zeta. cbn [deref Read.resolve strip]. rewrite Hn. reflexivity. }
     rewrite Hres.
     destruct (is_union r) eqn:Hur.
@@ -1683,11 +1767,19 @@ Proof.
       * destruct (spec_idx_range _ _ _ _ _ Hk) as (b & Hnth). rewrite Hnth in Ha |- *.
         destruct (inline_branch rbs k b Hr Hnth) as [Hbi Hbu]. cbn [rbind].
         rewrite (IH we wb a Hx re b f Hf' Hwi Hbi Ha).
-        rewrite (resolve_reader_side we re wb (SUnion rbs) b a).
-        -- destruct (resolve we re wb b a); reflexivity.
+        assert (Hpick : union_pick we re wb (SUnion rbs) = Some b).
+        { unfold union_pick. cbn [deref Read.resolve strip].
+          rewrite (inline_deref we wb Hwi), pick_branch_idx, (spec_idx_strip we re wb rbs Hwi), Hk. exact Hnth. }
+        rewrite Hpick, (resolve_reader_side we re wb (SUnion rbs) b a).
+        -- destruct (resolve o we re wb b a) as [v| | |]; cbn [rbind]; try reflexivity.
+           rewrite (wrap_eq_inline we re wbs wb (Some b) v Hwi).
+           ++ destruct (wrap_spec o we re wbs wb (Some b) v); reflexivity.
+           ++ intros b0 E. injection E as <-. split; [exact Hbi|].
+              apply (smatch_named_inline we re wb b Hwi Hbi Hwu' Hbu).
+              apply (spec_idx_smatch we re wb rbs k b Hwi Hwu' Hr Hk Hnth).
         -- apply deref_nonunion; assumption.
         -- rewrite (inline_deref we wb Hwi), (reader_side_union we re (strip wb) rbs k b (eq_trans (spec_idx_strip we re wb rbs Hwi) Hk) Hnth Hbi Hbu), (reader_side_plain we re (strip wb) b Hbi Hbu). reflexivity.
-      * symmetry. apply (error_no_branch we re wb (SUnion rbs) a rbs).
+      * rewrite (error_no_branch we re wb (SUnion rbs) a rbs); [reflexivity| | | |].
         -- apply deref_nonunion; assumption.
         -- rewrite (inline_deref we wb Hwi). eapply typed_fits; eassumption.
         -- reflexivity.
@@ -1697,9 +1789,13 @@ Proof.
         by (destruct r; try discriminate Hur; exact Ha).
       clear Ha. rename Ha2 into Ha.
       rewrite (union_reader_plain we re wb r Hur), (match_types_top_spec we re wb r Hwi Hr). cbn [rbind].
+      rewrite (union_pick_plain we re wb r) by (rewrite (inline_deref re r Hr); destruct (inline_strip r Hr) as (_ & _ & ->); exact Hur).
       destruct (smatch we re true wb r) eqn:Hm.
-      * cbn [rbind]. rewrite (IH we wb a Hx re r f Hf' Hwi Hr Ha). destruct (resolve we re wb r a); reflexivity.
-      * cbn [rbind]. symmetry. eapply resolve_reject; eassumption.
+      * cbn [rbind]. rewrite (IH we wb a Hx re r f Hf' Hwi Hr Ha).
+        destruct (resolve o we re wb r a) as [v| | |]; cbn [rbind]; try reflexivity.
+        rewrite (wrap_eq_inline we re wbs wb None v Hwi) by (intros b0 E; discriminate E).
+        destruct (wrap_spec o we re wbs wb None v); reflexivity.
+      * cbn [rbind]. rewrite (resolve_reject we re m wb r a Hwi Hr Hwu' Hur Hx Hm). reflexivity.
   - (* the writer schema is not a union *)
     rewrite (agree_nonunion we re w r Hu) in Ha. apply andb_prop in Ha. destruct Ha as [Htr Ha].
     unfold matched. rewrite (truthy_some r Htr).
@@ -1732,19 +1828,19 @@ Qed.
 Theorem rdec_resolve_zone : forall n we w l, typedl n we w l ->
   forall re r f x, (n <= f)%nat -> typedn n we w (erase l) ->
   inline w = true -> inline r = true -> agree we re w r = true ->
-  rdec f we re ropts0 w (Some r) (wire_l l ++ x) = lift x (resolve we re w r (erase l)).
+  rdec f we re o w (Some r) (wire_l l ++ x) = lift x (resolve o we re w r (erase l)).
 Proof.
   intros n we w l Hl re r f x Hf Ht Hw Hr Ha.
-  rewrite (rdec_rval n we w l Hl f Hf re ropts0 (Some r) x).
+  rewrite (rdec_rval n we w l Hl f Hf re o (Some r) x).
   rewrite (rval_resolve n we w (erase l) Ht re r f Hf Hw Hr Ha). reflexivity.
 Qed.
 
 Theorem rdec_resolve_zone_wire : forall n we w a, typedn n we w a ->
   forall re r f x, (n <= f)%nat -> inline w = true -> inline r = true -> agree we re w r = true ->
-  rdec f we re ropts0 w (Some r) (wire a ++ x) = lift x (resolve we re w r a).
+  rdec f we re o w (Some r) (wire a ++ x) = lift x (resolve o we re w r a).
 Proof.
   intros n we w a Ht re r f x Hf Hw Hr Ha.
-  rewrite (rdec_rval_wire n we w a Ht f Hf re ropts0 (Some r) x).
+  rewrite (rdec_rval_wire n we w a Ht f Hf re o (Some r) x).
   rewrite (rval_resolve n we w a Ht re r f Hf Hw Hr Ha). reflexivity.
 Qed.
 
@@ -1752,7 +1848,7 @@ Qed.
 Theorem rdec_identity_zone : forall n e s a, typedn n e s a -> wf_ident n e s ->
   inline s = true -> agree e e s s = true ->
   forall f x, (n <= f)%nat ->
-  exists v, py_of ropts0 e s a = Some v /\ rdec f e e ropts0 s (Some s) (wire a ++ x) = ROk (v, x).
+  exists v, py_of o e s a = Some v /\ rdec f e e o s (Some s) (wire a ++ x) = ROk (v, x).
 Proof.
   intros n e s a Ht Hwf Hi Ha f x Hf. destruct (resolve_identity n e s a Ht Hwf) as (v & H1 & H2).
   exists v. split; [exact H1|]. rewrite (rdec_resolve_zone_wire n e s a Ht e s f x Hf Hi Hi Ha), H2. reflexivity.
@@ -2029,11 +2125,11 @@ Proof.
 Qed.
 
 Lemma resolve_deref1_r we re w r a : env_scoped re = true -> scoped re r = true ->
-  resolve we re w (deref1 re r) a = resolve we re w r a.
+  resolve o we re w (deref1 re r) a = resolve o we re w r a.
 Proof. intros He Hr. apply resolve_deref_r. apply deref_deref1; assumption. Qed.
 
 Lemma resolve_deref1_w we re w r a : env_scoped we = true -> scoped we w = true ->
-  resolve we re (deref1 we w) r a = resolve we re w r a.
+  resolve o we re (deref1 we w) r a = resolve o we re w r a.
 Proof. intros He Hw. apply resolve_deref_w. apply deref_deref1; assumption. Qed.
 
 Lemma smatch_deref_r we re promo : forall w r r', deref re r = deref re r' -> smatch we re promo w r = smatch we re promo w r'.
@@ -2127,7 +2223,7 @@ Qed.
 Lemma resolve_rejectS we re n w b a :
   nonref w = true -> scoped we w = true -> nonref b = true -> scoped re b = true ->
   is_union w = false -> is_union b = false ->
-  typedn (S n) we w a -> smatch we re true w b = false -> resolve we re w b a = RErrResolution.
+  typedn (S n) we w a -> smatch we re true w b = false -> resolve o we re w b a = RErrResolution.
 Proof.
   intros Hnw Hw Hnb Hb Huw Hub Ht Hm.
   dnode w Hw Hnw ltw pw; try discriminate Huw;
@@ -2268,12 +2364,12 @@ Section BodyS.
   Hypothesis IH : forall we w a, typedn n we w a -> forall re r k f, (n <= k)%nat -> (n <= f)%nat ->
     env_scoped we = true -> env_scoped re = true -> scoped we w = true -> scoped re r = true ->
     agreen k we re w r = true ->
-    rval f we re ropts0 w (Some r) a = resolve we re w r a.
+    rval f we re o w (Some r) a = resolve o we re w r a.
 
   Lemma items_agreeS we re wi ri k f l : (n <= k)%nat -> (n <= f)%nat ->
     env_scoped we = true -> env_scoped re = true -> scoped we wi = true -> scoped re ri = true ->
     agreen k we re wi ri = true -> Forall (typedn n we wi) l ->
-    vitems (fun a => rval f we re ropts0 wi (Some ri) a) l = res_items (resolve we re) wi ri l.
+    vitems (fun a => rval f we re o wi (Some ri) a) l = res_items (resolve o we re) wi ri l.
   Proof.
     intros Hk Hf Hew Her Hw Hr Ha. induction 1 as [|x l Hx _ IHl]; cbn [vitems res_items]; [reflexivity|].
     rewrite (IH we wi x Hx re ri k f Hk Hf Hew Her Hw Hr Ha), IHl. reflexivity.
@@ -2283,7 +2379,7 @@ Section BodyS.
     env_scoped we = true -> env_scoped re = true -> scoped we wv = true -> scoped re rv = true ->
     agreen k we re wv rv = true ->
     Forall (fun kv => key_ok (fst kv) /\ typedn n we wv (snd kv)) l ->
-    vmap_items (fun a => rval f we re ropts0 wv (Some rv) a) l = res_entries (resolve we re) wv rv l.
+    vmap_items (fun a => rval f we re o wv (Some rv) a) l = res_entries (resolve o we re) wv rv l.
   Proof.
     intros Hk Hf Hew Her Hw Hr Ha. induction 1 as [|[key x] l [_ Hx] _ IHl]; cbn [vmap_items res_entries]; [reflexivity|].
     cbn [snd] in Hx. rewrite (IH we wv x Hx re rv k f Hk Hf Hew Her Hw Hr Ha), IHl. reflexivity.
@@ -2296,7 +2392,7 @@ Section BodyS.
     forallb (fun wf => match reader_field rfs (fname wf) with
                        | Some rf => agreen k we re (ftype wf) (ftype rf)
                        | None => true end) wfs = true ->
-    vfields (rval f we re ropts0) rfs wfs l acc = res_fields (resolve we re) rfs wfs l acc.
+    vfields (rval f we re o) rfs wfs l acc = res_fields (resolve o we re) rfs wfs l acc.
   Proof.
     intros Hk Hf Hew Her Hrfs wfs l acc H. revert acc. induction H as [|wf x wfs l Hx _ IHl]; intros acc Hi Ha; cbn [vfields res_fields]; [reflexivity|].
     cbn [forallb] in Hi, Ha. apply andb_prop in Hi. destruct Hi as [Hi1 Hi2]. apply andb_prop in Ha. destruct Ha as [Ha1 Ha2].
@@ -2304,7 +2400,7 @@ Section BodyS.
     - assert (Hrf : scoped re (ftype rf) = true).
       { rewrite forallb_forall in Hrfs. apply Hrfs. eapply reader_field_in. exact E. }
       rewrite (IH we (ftype wf) x Hx re (ftype rf) k f Hk Hf Hew Her Hi1 Hrf Ha1).
-      destruct (resolve we re (ftype wf) (ftype rf) x); cbn [rbind]; try reflexivity. apply IHl; assumption.
+      destruct (resolve o we re (ftype wf) (ftype rf) x); cbn [rbind]; try reflexivity. apply IHl; assumption.
     - apply IHl; assumption.
   Qed.
 
@@ -2313,7 +2409,7 @@ Section BodyS.
     nonref w = true -> scoped we w = true -> nonref b = true -> scoped re b = true ->
     is_union w = false -> is_union b = false ->
     smatch we re true w b = true -> node_ok k we re w b = true ->
-    rbody f we re ropts0 w (Some b) a = resolve we re w b a.
+    rbody f we re o w (Some b) a = resolve o we re w b a.
   Proof.
     intros Ht Hk Hf Hew Her Hnw Hw Hnb Hb Huw Hub Hm Hs.
     dnode w Hw Hnw ltw pw; try discriminate Huw;
@@ -2334,19 +2430,19 @@ Section BodyS.
       cbn [resolve]; cbv zeta; cbn [deref Read.resolve strip reader_side]. rewrite Hm.
       unfold rbody. cbn [strip truthy r_items is_dict is_list is_str negb andb rbind].
       rewrite (items_agreeS we re w b k f l Hk Hf Hew Her Hw Hb Hs Hl).
-      destruct (res_items (resolve we re) w b l); reflexivity.
+      destruct (res_items (resolve o we re) w b l); reflexivity.
     - (* map *)
       destruct Ht as [_ Hl]. cbn [scoped] in Hw, Hb.
       cbn [resolve]; cbv zeta; cbn [deref Read.resolve strip reader_side]. rewrite Hm.
       unfold rbody. cbn [strip truthy r_values is_dict is_list is_str negb andb rbind].
       rewrite (entries_agreeS we re w b k f l Hk Hf Hew Her Hw Hb Hs Hl).
-      destruct (res_entries (resolve we re) w b l); reflexivity.
+      destruct (res_entries (resolve o we re) w b l); reflexivity.
     - (* record *)
       cbn [scoped] in Hw, Hb. apply andb_prop in Hs. destruct Hs as [Hs Hd]. pose proof (guard_always fs0 fs) as Hg.
       cbn [resolve]; cbv zeta; cbn [deref Read.resolve strip reader_side]. rewrite Hm.
       unfold rbody. cbn [strip r_fields is_dict is_list is_str negb andb rbind].
       rewrite (fields_agreeS we re fs0 k f Hk Hf Hew Her Hb fs l [] Ht Hw Hs).
-      destruct (res_fields (resolve we re) fs0 fs l []) as [record| | |] eqn:E; cbn [rbind]; try reflexivity.
+      destruct (res_fields (resolve o we re) fs0 fs l []) as [record| | |] eqn:E; cbn [rbind]; try reflexivity.
       assert (Hkeys : keys_inv record (rec_keys fs0 fs [])).
       { rewrite <- (fields_agreeS we re fs0 k f Hk Hf Hew Her Hb fs l [] Ht Hw Hs) in E. eapply vfields_keys; [|exact E]. reflexivity. }
       rewrite (finish_eq re fs0 fs record Hkeys Hd Hg).
@@ -2389,7 +2485,7 @@ Qed.
 
 Lemma resolve_reject_gen we re m w r a : env_scoped we = true -> env_scoped re = true ->
   scoped we w = true -> scoped re r = true -> is_union (deref1 we w) = false -> is_union (deref1 re r) = false ->
-  typedn (S m) we w a -> smatch we re true w r = false -> resolve we re w r a = RErrResolution.
+  typedn (S m) we w a -> smatch we re true w r = false -> resolve o we re w r a = RErrResolution.
 Proof.
   intros Hew Her Hw Hr Huw Hur Ht Hm.
   destruct (deref1_node we w Hew Hw) as (Hnw & Hsw & _ & _). destruct (deref1_node re r Her Hr) as (Hnr & Hsr & _ & _).
@@ -2410,12 +2506,12 @@ Qed.
 Lemma resolve_pick we re w rbs j b a : env_scoped we = true -> env_scoped re = true ->
   scoped we w = true -> is_union (deref1 we w) = false -> scoped re (SUnion rbs) = true ->
   spec_idx we re w rbs = Some j -> nth_error rbs j = Some b ->
-  resolve we re w (SUnion rbs) a = resolve we re w (deref1 re b) a /\ resolve we re w (SUnion rbs) a = resolve we re w b a.
+  resolve o we re w (SUnion rbs) a = resolve o we re w (deref1 re b) a /\ resolve o we re w (SUnion rbs) a = resolve o we re w b a.
 Proof.
   intros Hew Her Hw Huw Hr Hj Hn.
   destruct (scoped_branch re rbs b Hr (nth_error_In _ _ Hn)) as [Hbs Hbu].
   pose proof (nonunion_deref1 re b Her Hbs Hbu) as Hbu'.
-  assert (E : resolve we re w (SUnion rbs) a = resolve we re w b a).
+  assert (E : resolve o we re w (SUnion rbs) a = resolve o we re w b a).
   { apply resolve_reader_side; [apply deref_nonunionS; assumption|].
     rewrite (reader_sideS_union we re (deref we w) rbs j b Her (eq_trans (spec_idx_derefS we re w rbs Hew Hw) Hj) Hn Hbs Hbu').
     rewrite (reader_sideS_plain we re (deref we w) b Her Hbs Hbu'). reflexivity. }
@@ -2423,7 +2519,7 @@ Proof.
 Qed.
 
 Lemma resolve_no_branch we re m w rbs a : env_scoped we = true -> scoped we w = true -> is_union (deref1 we w) = false ->
-  typedn (S m) we w a -> spec_idx we re w rbs = None -> resolve we re w (SUnion rbs) a = RErrResolution.
+  typedn (S m) we w a -> spec_idx we re w rbs = None -> resolve o we re w (SUnion rbs) a = RErrResolution.
 Proof.
   intros He Hw Hu Ht Hk. apply (error_no_branch we re w (SUnion rbs) a rbs).
   - apply deref_nonunionS; assumption.
@@ -2441,10 +2537,46 @@ Lemma match_types_topS we re wb r : env_scoped we = true -> env_scoped re = true
   scoped we wb = true -> scoped re r = true -> match_types_top we re 2 wb r = ROk (smatch we re true wb r).
 Proof. intros H1 H2 H3 H4. exact (match_types_scoped we re (mfuel wb) wb r H1 H2 (proj2 (mfuel_ge wb)) H3 H4). Qed.
 
+Lemma topnode_of e s : nonref s = true -> scoped e s = true -> topnode s = true.
+Proof. intros Hn Hs. destruct s; try discriminate Hn; try reflexivity. exact Hs. Qed.
+
+Lemma wrap_eq_scoped we re wbs wb rb v : env_scoped we = true -> env_scoped re = true -> scoped we wb = true ->
+  (forall b, rb = Some b -> scoped re b = true /\
+       (in_named_types (tag_of (deref1 we wb)) = true -> in_named_types (tag_of (deref1 re b)) = true)) ->
+  wrap_union_r o we re wbs wb rb v = wrap_spec o we re wbs wb rb v.
+Proof.
+  intros Hew Her Hw Hb. destruct (deref1_node we wb Hew Hw) as (Hn & Hs & Hd & _). apply wrap_eq_core.
+  - apply (topnode_of we); assumption.
+  - exact Hd.
+  - intros b E. destruct (Hb b E) as [Hbs Hnm]. destruct (deref1_node re b Her Hbs) as (Hnb & Hsb & Hdb & _).
+    split; [apply (topnode_of re); assumption|]. split; [exact Hdb|exact Hnm].
+Qed.
+
+Lemma smatch_named_scoped we re wb b : env_scoped we = true -> env_scoped re = true ->
+  scoped we wb = true -> scoped re b = true -> is_union (deref1 we wb) = false -> is_union (deref1 re b) = false ->
+  smatch we re true wb b = true ->
+  in_named_types (tag_of (deref1 we wb)) = true -> in_named_types (tag_of (deref1 re b)) = true.
+Proof.
+  intros Hew Her Hw Hb Huw Hub Hm Hn.
+  rewrite <- (smatch_deref1_w we re true wb b Hew Hw), <- (smatch_deref1_r we re true (deref1 we wb) b Her Hb) in Hm.
+  destruct (deref1_node we wb Hew Hw) as (Hnw & Hsw & _ & _). destruct (deref1_node re b Her Hb) as (Hnb & Hsb & _ & _).
+  set (w' := deref1 we wb) in *. set (b' := deref1 re b) in *. clearbody w' b'.
+  dnode w' Hsw Hnw ltw pw; try discriminate Huw; try discriminate Hn;
+    dnode b' Hsb Hnb ltb pb; try discriminate Hub; try reflexivity;
+    cbn [smatch deref Read.resolve strip named_match prim_match] in Hm; discriminate Hm.
+Qed.
+
+Lemma union_pick_unionS we re wb rbs j b : env_scoped we = true -> scoped we wb = true ->
+  spec_idx we re wb rbs = Some j -> nth_error rbs j = Some b -> union_pick we re wb (SUnion rbs) = Some b.
+Proof.
+  intros He Hw Hj Hn. unfold union_pick. cbn [deref Read.resolve strip].
+  rewrite pick_branch_idx, (spec_idx_derefS we re wb rbs He Hw), Hj. exact Hn.
+Qed.
+
 Theorem rval_resolveS : forall n we w a, typedn n we w a -> forall re r k f, (n <= k)%nat -> (n <= f)%nat ->
   env_scoped we = true -> env_scoped re = true -> scoped we w = true -> scoped re r = true ->
   agreen k we re w r = true ->
-  rval f we re ropts0 w (Some r) a = resolve we re w r a.
+  rval f we re o w (Some r) a = resolve o we re w r a.
 Proof.
   induction n as [|n IH]; intros we w a Ht re r k f Hk Hf Hew Her Hw Hr Ha; [destruct Ht|].
   destruct f as [|f]; [lia|]. destruct k as [|k]; [lia|].
@@ -2460,9 +2592,9 @@ Proof.
     assert (Huw : is_union (deref1 we (SRef nm)) = false) by (rewrite Hd1; exact Hud).
     rewrite agreen_ref, Hl in Ha. apply andb_prop in Ha. destruct Ha as [Htr Ha].
     destruct n as [|m]; [destruct Ht|].
-    assert (Hbody : forall R', rbody f we re ropts0 (SRef nm) R' a = rval f we re ropts0 d R' a).
-    { intros R'. unfold rbody. cbn [strip]. rewrite Hl. destruct (rval f we re ropts0 d R' a); reflexivity. }
-    assert (Hspec : forall r0, resolve we re (SRef nm) r0 a = resolve we re d r0 a).
+    assert (Hbody : forall R', rbody f we re o (SRef nm) R' a = rval f we re o d R' a).
+    { intros R'. unfold rbody. cbn [strip]. rewrite Hl. destruct (rval f we re o d R' a); reflexivity. }
+    assert (Hspec : forall r0, resolve o we re (SRef nm) r0 a = resolve o we re d r0 a).
     { intros r0. rewrite <- (resolve_deref1_w we re (SRef nm) r0 a Hew Hw), Hd1. reflexivity. }
     unfold matched. rewrite (truthy_some r Htr).
     destruct (is_union (deref1 re r)) eqn:Hur.
@@ -2502,7 +2634,8 @@ Proof.
     pose proof (nonunion_deref1 we wb Hew Hwbs Hwbu) as Hwbu'.
     rewrite forallb_forall in Ha. specialize (Ha wb Hin).
     destruct n as [|m]; [destruct Hx|].
-    assert (Hres : resolve we re (SUnion wbs) r (AUnion i a) = resolve we re wb r a).
+    assert (Hres : resolve o we re (SUnion wbs) r (AUnion i a) =
+                   (let+ v := resolve o we re wb r a in wrap_spec o we re wbs wb (union_pick we re wb r) v)).
     { cbn [resolve]; cbv zeta. cbn [deref Read.resolve strip]. rewrite Hn. reflexivity. }
     rewrite Hres.
     destruct (is_union (deref1 re r)) eqn:Hur.
@@ -2513,18 +2646,28 @@ Proof.
       destruct (spec_idx we re wb rbs) as [j|] eqn:Hj; cbn [nth_opt].
       * destruct (spec_idx_range _ _ _ _ _ Hj) as (b & Hnth). rewrite Hnth in Ha |- *. cbn [rbind].
         destruct (scoped_branch re rbs b Hr (nth_error_In _ _ Hnth)) as [Hbs Hbu].
+        pose proof (nonunion_deref1 re b Her Hbs Hbu) as Hbu'.
         rewrite (IH we wb a Hx re b k f Hk' Hf' Hew Her Hwbs Hbs Ha).
+        rewrite (union_pick_unionS we re wb rbs j b Hew Hwbs Hj Hnth).
         rewrite (proj2 (resolve_pick we re wb rbs j b a Hew Her Hwbs Hwbu' Hr Hj Hnth)).
-        destruct (resolve we re wb b a); reflexivity.
-      * symmetry. apply (resolve_no_branch we re m wb rbs a Hew Hwbs Hwbu' Hx Hj).
+        destruct (resolve o we re wb b a) as [v| | |]; cbn [rbind]; try reflexivity.
+        rewrite (wrap_eq_scoped we re wbs wb (Some b) v Hew Her Hwbs).
+        -- destruct (wrap_spec o we re wbs wb (Some b) v); reflexivity.
+        -- intros b0 E. injection E as <-. split; [exact Hbs|].
+           apply (smatch_named_scoped we re wb b Hew Her Hwbs Hbs Hwbu' Hbu').
+           apply (spec_idx_smatchS we re wb rbs j b Hew Her Hwbs Hwbu' Hr Hj Hnth).
+      * rewrite (resolve_no_branch we re m wb rbs a Hew Hwbs Hwbu' Hx Hj). reflexivity.
     + assert (Ha2 : (if smatch we re true wb r then agreen k we re wb (deref1 re r) else true) = true)
         by (destruct (deref1 re r); try discriminate Hur; exact Ha).
       rewrite (union_reader_plain we re wb (deref1 re r) Hur), (match_types_topS we re wb (deref1 re r) Hew Her Hwbs Hsr).
       rewrite (smatch_deref1_r we re true wb r Her Hr). cbn [rbind].
+      rewrite (union_pick_plain we re wb r) by (apply deref_nonunionS; assumption).
       destruct (smatch we re true wb r) eqn:Hm; cbn [rbind].
       * rewrite (IH we wb a Hx re (deref1 re r) k f Hk' Hf' Hew Her Hwbs Hsr Ha2), (resolve_deref1_r we re wb r a Her Hr).
-        destruct (resolve we re wb r a); reflexivity.
-      * symmetry. apply (resolve_reject_gen we re m wb r a Hew Her Hwbs Hr Hwbu' Hur Hx Hm).
+        destruct (resolve o we re wb r a) as [v| | |]; cbn [rbind]; try reflexivity.
+        rewrite (wrap_eq_scoped we re wbs wb None v Hew Her Hwbs) by (intros b0 E; discriminate E).
+        destruct (wrap_spec o we re wbs wb None v); reflexivity.
+      * rewrite (resolve_reject_gen we re m wb r a Hew Her Hwbs Hr Hwbu' Hur Hx Hm). reflexivity.
   - (* ---- the writer schema is neither a union nor a reference *)
     assert (Huw : is_union (deref1 we w) = false) by (rewrite (deref1_nonref we w Hnw); exact Hu).
     rewrite (agreen_node k we re w r Hnw Hu) in Ha. apply andb_prop in Ha. destruct Ha as [Htr Ha].
@@ -2559,13 +2702,15 @@ Theorem rdec_resolve_zoneS : forall n we w a, typedn n we w a ->
   forall re r k f x, (n <= k)%nat -> (n <= f)%nat ->
   env_scoped we = true -> env_scoped re = true -> scoped we w = true -> scoped re r = true ->
   agreen k we re w r = true ->
-  rdec f we re ropts0 w (Some r) (wire a ++ x) = lift x (resolve we re w r a).
+  rdec f we re o w (Some r) (wire a ++ x) = lift x (resolve o we re w r a).
 Proof.
   intros n we w a Ht re r k f x Hk Hf Hew Her Hw Hr Ha.
-  rewrite (rdec_rval_wire n we w a Ht f Hf re ropts0 (Some r) x).
+  rewrite (rdec_rval_wire n we w a Ht f Hf re o (Some r) x).
   rewrite (rval_resolveS n we w a Ht re r k f Hk Hf Hew Her Hw Hr Ha). reflexivity.
 Qed.
 
+
+End Opts.
 
 From Coq Require Import String.
 Open Scope string_scope. Open Scope Z_scope.
@@ -2594,7 +2739,7 @@ Definition f6_a := ABytes [97; 98; 99].
 Lemma typed_F6 : typedn 1 [] SBytes f6_a. Proof. typed_tac. Qed.
 Lemma fixed_F6 :
   rdec 3 [] [] ropts0 SBytes (Some f6_r) (wire f6_a) = ROk (PBytes [97; 98; 99], []) /\
-  resolve [] [] SBytes f6_r f6_a = ROk (PBytes [97; 98; 99]).
+  resolve ropts0 [] [] SBytes f6_r f6_a = ROk (PBytes [97; 98; 99]).
 Proof. split; vm_compute; reflexivity. Qed.
 
 (** F7: the writer defines fixed F at field x and refers to it at y; the reader the other way round *)
@@ -2608,7 +2753,7 @@ Definition f7_out := PDict [(PStr (s2b "x"), PBytes [1; 2; 3; 4]); (PStr (s2b "y
 Lemma typed_F7 : typedn 3 f7_we f7_w f7_a. Proof. typed_tac. Qed.
 Lemma fixed_F7 :
   rdec 5 f7_we f7_re ropts0 f7_w (Some f7_r) (wire f7_a) = ROk (f7_out, []) /\
-  resolve f7_we f7_re f7_w f7_r f7_a = ROk f7_out.
+  resolve ropts0 f7_we f7_re f7_w f7_r f7_a = ROk f7_out.
 Proof. split; vm_compute; reflexivity. Qed.
 
 (** the writer refers to enum E by name where the reader has a union with the inline definition *)
@@ -2622,7 +2767,7 @@ Definition g1_out := PDict [(PStr (s2b "y"), PStr (s2b "B"))].
 Lemma typed_g1 : typedn 3 g1_we g1_w g1_a. Proof. typed_tac. Qed.
 Lemma fixed_ref_vs_union_inline :
   rdec 5 g1_we g1_re ropts0 g1_w (Some g1_r) (wire g1_a) = ROk (g1_out, []) /\
-  resolve g1_we g1_re g1_w g1_r g1_a = ROk g1_out.
+  resolve ropts0 g1_we g1_re g1_w g1_r g1_a = ROk g1_out.
 Proof. split; vm_compute; reflexivity. Qed.
 
 (** the kind of a named type: record against enum, fixed against record of the same name *)
@@ -2633,9 +2778,9 @@ Lemma typed_g2 : typedn 2 [(s2b "R", g2_w)] g2_w (ARecord [AInt 1]). Proof. type
 Lemma typed_g2b : typedn 1 [(s2b "F", F4)] F4 (AFixed [1; 2; 3; 4]). Proof. typed_tac. Qed.
 Lemma fixed_kind :
   rdec 5 [(s2b "R", g2_w)] [(s2b "R", g2_r)] ropts0 g2_w (Some g2_r) (wire (ARecord [AInt 1])) = RErrResolution /\
-  resolve [(s2b "R", g2_w)] [(s2b "R", g2_r)] g2_w g2_r (ARecord [AInt 1]) = RErrResolution /\
+  resolve ropts0 [(s2b "R", g2_w)] [(s2b "R", g2_r)] g2_w g2_r (ARecord [AInt 1]) = RErrResolution /\
   rdec 5 [(s2b "F", F4)] [(s2b "F", g2b_r)] ropts0 F4 (Some g2b_r) (wire (AFixed [1; 2; 3; 4])) = RErrResolution /\
-  resolve [(s2b "F", F4)] [(s2b "F", g2b_r)] F4 g2b_r (AFixed [1; 2; 3; 4]) = RErrResolution.
+  resolve ropts0 [(s2b "F", F4)] [(s2b "F", g2b_r)] F4 g2b_r (AFixed [1; 2; 3; 4]) = RErrResolution.
 Proof. repeat split; vm_compute; reflexivity. Qed.
 
 (** the JSON default of a reader-only bytes field *)
@@ -2645,14 +2790,14 @@ Definition g3_out := PDict [(PStr (s2b "x"), PInt 1); (PStr (s2b "b"), PBytes [2
 Lemma typed_g3 : typedn 2 [(s2b "R", g3_w)] g3_w (ARecord [AInt 1]). Proof. typed_tac. Qed.
 Lemma fixed_default_bytes :
   rdec 5 [(s2b "R", g3_w)] [(s2b "R", g3_r)] ropts0 g3_w (Some g3_r) (wire (ARecord [AInt 1])) = ROk (g3_out, []) /\
-  resolve [(s2b "R", g3_w)] [(s2b "R", g3_r)] g3_w g3_r (ARecord [AInt 1]) = ROk g3_out.
+  resolve ropts0 [(s2b "R", g3_w)] [(s2b "R", g3_r)] g3_w g3_r (ARecord [AInt 1]) = ROk g3_out.
 Proof. split; vm_compute; reflexivity. Qed.
 
 (** int -> float: 16777217 is not a binary32 value *)
 Lemma typed_g4 : typedn 1 [] SInt (AInt 16777217). Proof. typed_tac. Qed.
 Lemma fixed_int_to_float :
   rdec 3 [] [] ropts0 SInt (Some SFloat) (wire (AInt 16777217)) = ROk (PFloat 4715268809856909312, []) /\
-  resolve [] [] SInt SFloat (AInt 16777217) = ROk (PFloat 4715268809856909312).
+  resolve ropts0 [] [] SInt SFloat (AInt 16777217) = ROk (PFloat 4715268809856909312).
 Proof. split; vm_compute; reflexivity. Qed.
 
 (** reader == writer: a union of two records with the same unqualified name *)
@@ -2665,7 +2810,7 @@ Definition g5_out := PDict [(PStr (s2b "y"), PStr [104; 105])].
 Lemma typed_g5 : typedn 3 g5_e g5_u g5_v. Proof. typed_tac. Qed.
 Lemma fixed_identity_same_unqualified_name :
   rdec 5 g5_e g5_e ropts0 g5_u (Some g5_u) (wire g5_v) = ROk (g5_out, []) /\
-  resolve g5_e g5_e g5_u g5_u g5_v = ROk g5_out /\
+  resolve ropts0 g5_e g5_e g5_u g5_u g5_v = ROk g5_out /\
   py_of ropts0 g5_e g5_u g5_v = Some g5_out.
 Proof. repeat split; vm_compute; reflexivity. Qed.
 
@@ -2677,7 +2822,7 @@ Definition g6_a := ARecord [AUnion 0 ANull; AArray []].
 Lemma typed_g6 : typedn 3 [(s2b "R", g6_w); (s2b "F", F4)] g6_w g6_a. Proof. typed_tac. Qed.
 Lemma fixed_refs_by_name_only :
   rdec 5 [(s2b "R", g6_w); (s2b "F", F4)] [(s2b "R", g6_r); (s2b "F", F5)] ropts0 g6_w (Some g6_r) (wire g6_a) = RErrResolution /\
-  resolve [(s2b "R", g6_w); (s2b "F", F4)] [(s2b "R", g6_r); (s2b "F", F5)] g6_w g6_r g6_a = RErrResolution.
+  resolve ropts0 [(s2b "R", g6_w); (s2b "F", F4)] [(s2b "R", g6_r); (s2b "F", F5)] g6_w g6_r g6_a = RErrResolution.
 Proof. split; vm_compute; reflexivity. Qed.
 
 (** *** a non-trivial pair on which code and specification agree: fields reordered, one renamed with an alias and
@@ -2694,7 +2839,7 @@ Lemma example_agree :
   typedn 3 [(s2b "R", ex_w)] ex_w ex_a /\
   wire ex_a = [4; 2; 120; 4; 121; 121; 0; 6; 6; 104; 195; 169] /\
   rdec 5 [(s2b "R", ex_w)] [(s2b "ns.R", ex_r)] ropts0 ex_w (Some ex_r) (wire ex_a ++ [7; 7])%list = ROk (ex_out, [7; 7]) /\
-  resolve [(s2b "R", ex_w)] [(s2b "ns.R", ex_r)] ex_w ex_r ex_a = ROk ex_out.
+  resolve ropts0 [(s2b "R", ex_w)] [(s2b "ns.R", ex_r)] ex_w ex_r ex_a = ROk ex_out.
 Proof. split; [typed_tac|split; [|split]; vm_compute; reflexivity]. Qed.
 
 (** the example pair and the inline witnesses lie inside the agreement zone *)
